@@ -1,4 +1,6 @@
 """C42 - BPF service load-balancing maps are never inconsistent mid-update (felix/bpf/proxy Syncer)."""
+import copy
+
 from vlib import pipeline
 
 
@@ -28,15 +30,16 @@ P = {
     "design": [dict(TLC, module="I_Syncer", cfg="MC_I_Syncer_quick.cfg", thorough_cfg="MC_I_Syncer.cfg",
                     timeout=600, thorough_timeout=3000)],
     "gen": dict(TLC, module="Gen_Syncer", cfg="Gen_cover.cfg", thorough_cfg="Gen_cover_thorough.cfg",
-                max=500, thorough_max=12000, timeout=600, thorough_timeout=1800),
-    "driver": {"cmd": "syncer"},
-    "n_random": (150, 4000),
+                max=400, thorough_max=8000, timeout=600, thorough_timeout=1800),
+    # the cover generator's model has one node-port IP: same here, so that its crash points reach every write
+    "driver": {"cmd": "syncer", "env": {"VERIF_NPIPS": "1"}},
+    "n_random": (120, 2500),
     "trace": {"module": "T_Syncer", "cfg": "T_Syncer.cfg", "heap": "4g", "timeout": 900},
-    "chunk": 60000,
+    "chunk": 30000,
     "signature": signature,
     "nontrivial": nontrivial,
     "rule": "behaviours = for every transition of I_Syncer's state graph (2 services x 2 endpoints, node port, <= 2 edits, "
-            "<= 1 crash) that completes an Apply, crashes it after write k (every reachable k) or restarts the Syncer: the "
+            "<= 1 crash/restart) that completes an Apply, crashes it after write k (every reachable k) or restarts the Syncer: the "
             "history of desired states leading there (TLC, VIEW + ACTION_CONSTRAINT), thinned by seed in quick tier; plus TLC "
             "-simulate walks over 2 services x 3 endpoints with external IP / LB IP / node port / externalTrafficPolicy; plus "
             "seeded random histories over 2-4 services x 2-5 endpoints (port and protocol changes, terminating endpoints, "
@@ -54,15 +57,22 @@ P = {
 
 
 def run(ctx):
-    pipeline.standard_check(ctx, P)
+    P1 = dict(P)
+    if not ctx.quick:
+        # thorough: a second exhaustive design run with LB IPs and externalTrafficPolicy: Local
+        P1["design"] = P["design"] + [dict(TLC, module="I_Syncer", cfg="MC_I_Syncer_opts.cfg", thorough_timeout=3000)]
+    pipeline.standard_check(ctx, P1)
+    ctx.notes["leg_cover"] = {k: ctx.notes.get(k) for k in ("behaviours_from_tlc", "behaviour_generator", "trace_validation")}
     if not ctx.replay and not ctx.violations:
         # second generator: TLC random walks over the bigger universe (2 x 3, all options)
         P2 = dict(P)
         P2["design"] = []
         P2["gen"] = dict(TLC, module="Gen_Syncer", cfg="Gen_sim.cfg", workers=1, timeout=600, thorough_timeout=1800,
-                         simulate={"num": 40, "depth": 800}, thorough_simulate={"num": 1500, "depth": 800})
+                         simulate={"num": 30, "depth": 800}, thorough_simulate={"num": 800, "depth": 800})
+        P2["driver"] = {"cmd": "syncer"}
         P2["n_random"] = (0, 0)
         pipeline.standard_check(ctx, P2)
+        ctx.notes["leg_simulate"] = {k: ctx.notes.get(k) for k in ("behaviours_from_tlc", "behaviour_generator", "trace_validation")}
 
 
 def selftest(ctx):
@@ -133,10 +143,14 @@ def selftest(ctx):
                             ep["local"] = True
                         return evs
 
-    return pipeline.corruption_selftest(ctx, P, [
+    def fresh(fn):
+        # corruption_selftest hands out shallow copies; the corruptions edit nested lists
+        return lambda evs: fn(copy.deepcopy(evs))
+
+    return pipeline.corruption_selftest(ctx, P, [(n, fresh(f)) for n, f in [
         ("drop_write", drop_write), ("flip_count", flip_count), ("early_backend_delete", early_backend_delete),
         ("snapshot_loses_backend", snapshot_loses_backend), ("not_ready_listed", not_ready_listed),
-        ("stale_frontend", stale_frontend), ("local_not_first", local_not_first)], n_random=30)
+        ("stale_frontend", stale_frontend), ("local_not_first", local_not_first)]], n_random=30)
 
 
 MANIFEST = dict(
